@@ -365,6 +365,7 @@ type Link struct {
 	cut     *Cut
 	fcut    *FrameCut
 	trk     [2]tracker
+	stall   [2]bool // writes in this direction block (the peer is alive but not reading and the buffers are full)
 	closed  [2]bool // local Close called on client(0) / server(1) end
 	dl      [2]time.Time
 	dlTimer [2]*time.Timer
@@ -487,6 +488,10 @@ func (c *Conn) Write(p []byte) (int, error) {
 	}
 	lk.mu.Lock()
 	defer lk.mu.Unlock()
+	// back-pressure: a stalled direction accepts nothing until the link dies or an end closes
+	for lk.stall[d] && lk.fault == None && !lk.closed[0] && !lk.closed[1] {
+		lk.cond.Wait()
+	}
 	if lk.closed[c.end] {
 		return 0, net.ErrClosed
 	}
@@ -704,4 +709,12 @@ func TextFrame(payload []byte, fromClient bool) []byte {
 		b = append(b, 0, 0, 0, 0)
 	}
 	return append(b, payload...)
+}
+
+// Stall makes every further write in direction d block, as a full TCP send buffer towards a
+// peer that has stopped reading does, until the link dies or one end closes it.
+func (lk *Link) Stall(d Dir) {
+	lk.mu.Lock()
+	lk.stall[d] = true
+	lk.mu.Unlock()
 }
